@@ -108,7 +108,7 @@ _PURE_BUILTINS = {"len": len, "abs": abs, "max": max, "min": min, "round": round
                   "any": any, "all": all, "sum": sum, "range": range, "enumerate": enumerate, "zip": zip,
                   "list": list, "tuple": tuple, "set": set, "frozenset": frozenset, "dict": dict,
                   "int": int, "float": float, "str": str, "bool": bool, "repr": repr, "reversed": reversed,
-                  "type": type, "hasattr": None, "id": id, "format": format, "divmod": divmod, "ord": ord, "chr": chr, "callable": callable}
+                  "type": type, "hasattr": None, "id": id, "format": format, "divmod": divmod, "ord": ord, "chr": chr, "callable": callable, "object": object, "iter": iter, "bytes": bytes, "pow": pow, "bin": bin, "hex": hex, "oct": oct}
 
 
 def _pure_callables():
@@ -906,6 +906,13 @@ class Interp:
                     return _TYPES[name](*args, **kwargs)
                 except (ValueError, TypeError, OverflowError) as e:
                     raise Raised(type(e).__name__, "", n)
+            if name == "next" and name not in env and len(args) in (1, 2) and not kwargs:
+                try:
+                    return next(args[0]) if len(args) == 1 else next(args[0], args[1])
+                except StopIteration:
+                    raise Raised("StopIteration", "", n)
+                except TypeError:
+                    raise Raised("TypeError", "", n)
             if name in _PURE_BUILTINS and name not in env:
                 try:
                     r = _PURE_BUILTINS[name](*args, **kwargs)
